@@ -591,7 +591,10 @@ impl Shape {
             | (Shape::Int(_), Shape::Int(_))
             | (Shape::Float(_), Shape::Float(_)) => self.clone(),
             (Shape::Hole(sym), other) | (other, Shape::Hole(sym)) => {
-                if symbol_table.contains_key(&sym.val) {
+                // Only a symbol whose shape is still unknown learns from this.
+                // A hole can outlive the function argument it stood for and
+                // must not overwrite an unrelated binding of the same name.
+                if let Some(Shape::Hole(_)) = symbol_table.get(&sym.val) {
                     symbol_table.insert(sym.val.clone(), other.clone().with_pos(sym.pos.clone()));
                 }
                 other.clone()
